@@ -9,13 +9,15 @@ import TlsProofs.CbcCheck
 namespace Tls.Py
 open Tls Tls.CT
 
-/-! ### non-negative operands -/
-theorem band_nat (a b : Nat) : band (a : Int) (b : Int) = ((a &&& b : Nat) : Int) := rfl
-theorem bor_nat (a b : Nat) : bor (a : Int) (b : Int) = ((a ||| b : Nat) : Int) := rfl
-theorem bxor_nat (a b : Nat) : bxor (a : Int) (b : Int) = ((a ^^^ b : Nat) : Int) := rfl
-theorem band_nat_one (a : Nat) : band (a : Int) 1 = ((a &&& 1 : Nat) : Int) := rfl
-theorem band_nat_255 (a : Nat) : band (a : Int) 255 = ((a &&& 255 : Nat) : Int) := rfl
-theorem bxor_one_nat (b : Nat) : bxor 1 (b : Int) = ((1 ^^^ b : Nat) : Int) := rfl
+/-! ### non-negative operands
+  (stated through `Eq.trans` on purpose: a lemma proved by a bare `rfl` is used by `simp` as a
+  definitional step without proof term, and the kernel then has to rediscover it on a very large goal) -/
+theorem band_nat (a b : Nat) : band (a : Int) (b : Int) = ((a &&& b : Nat) : Int) := Eq.trans rfl rfl
+theorem bor_nat (a b : Nat) : bor (a : Int) (b : Int) = ((a ||| b : Nat) : Int) := Eq.trans rfl rfl
+theorem bxor_nat (a b : Nat) : bxor (a : Int) (b : Int) = ((a ^^^ b : Nat) : Int) := Eq.trans rfl rfl
+theorem band_nat_one (a : Nat) : band (a : Int) 1 = ((a &&& 1 : Nat) : Int) := Eq.trans rfl rfl
+theorem band_nat_255 (a : Nat) : band (a : Int) 255 = ((a &&& 255 : Nat) : Int) := Eq.trans rfl rfl
+theorem bxor_one_nat (b : Nat) : bxor 1 (b : Int) = ((1 ^^^ b : Nat) : Int) := Eq.trans rfl rfl
 theorem bor_zero_nat (b : Nat) : bor 0 (b : Int) = (b : Int) := by
   show ((0 ||| b : Nat) : Int) = b
   simp
@@ -88,6 +90,16 @@ namespace Tls.Py
 open Tls Tls.CT
 
 /-! ### bytes, control flow -/
+theorem bind_some' {α β : Type} (a : α) (f : α → Option β) : (some a).bind f = f a :=
+  (Option.bind_some a f).trans (Eq.refl _)
+
+theorem macCopy_eq (m : MacObj) : macCopy m = m := Eq.trans rfl rfl
+theorem macUpdate_mk (a : MacAlg) (x b : Bytes) : macUpdate ⟨a, x⟩ b = ⟨a, x ++ b⟩ := Eq.trans rfl rfl
+theorem macDigest_mk (a : MacAlg) (x : Bytes) : macDigest ⟨a, x⟩ = a.digest x := Eq.trans rfl rfl
+theorem macDigestSize_mk (a : MacAlg) (x : Bytes) : macDigestSize ⟨a, x⟩ = (a.dlen : Int) := Eq.trans rfl rfl
+theorem macBlockSize_mk (a : MacAlg) (x : Bytes) : macBlockSize ⟨a, x⟩ = (a.blockSize : Int) := Eq.trans rfl rfl
+theorem len_eq (d : Bytes) : len d = (d.length : Int) := Eq.trans rfl rfl
+
 theorem getItem_nat (d : Bytes) (i : Nat) (h : i < d.length) :
     getItem d (i : Int) = some (byteAt d i : Int) := by
   unfold getItem
